@@ -60,21 +60,28 @@ func init() {
 			return []Term{r}
 		},
 		"strings.Split": func(e *Exec, st *State, call *ast.CallExpr, recv Term, args []Term) []Term {
-			// total; at least one element when sep != ""
+			// total and functional; at least one element
 			srt := e.S.sliceSort(SStr)
-			v := e.Ctx.Fresh("split", srt)
-			e.Ctx.Assume(st.PC, And(Ge(e.S.SlLen(v), Int(1)), Not(e.S.SlNil(v))))
+			var v Term
+			if lit := e.S.StrLit("|"); args[1].S == lit.S {
+				e.Ctx.DeclareFun("u_keys_SplitBar", []string{SStr}, srt)
+				v = app(srt, "u_keys_SplitBar", args[0])
+			} else {
+				e.Ctx.DeclareFun("str_split", []string{SStr, SStr}, srt)
+				v = app(srt, "str_split", args[0], args[1])
+			}
+			e.Ctx.Assume(st.PC, And(Ge(e.S.SlLen(v), Int(1)), Le(e.S.SlLen(v), IntS(maxLen)), Not(e.S.SlNil(v))))
 			return []Term{v}
 		},
 		"encoding/hex.DecodeString": func(e *Exec, st *State, call *ast.CallExpr, recv Term, args []Term) []Term {
 			e.S.needBytes()
-			e.Ctx.DeclareFun("hex_dec", []string{SStr}, SBytes)
-			e.Ctx.DeclareFun("hex_ok", []string{SStr}, SBool)
-			ok := app(SBool, "hex_ok", args[0])
+			e.Ctx.DeclareFun("u_common_HexDec", []string{SStr}, SBytes)
+			e.Ctx.DeclareFun("u_common_HexOK", []string{SStr}, SBool)
+			ok := app(SBool, "u_common_HexOK", args[0])
 			err := e.Ctx.Fresh("hexerr", SInt)
 			e.Ctx.Assume(st.PC, Eq(Eq(err, Int(0)), ok))
 			b := e.Ctx.Fresh("hexbytes", SBytes)
-			e.Ctx.Assume(st.PC, Implies(ok, Eq(b, app(SBytes, "hex_dec", args[0]))))
+			e.Ctx.Assume(st.PC, Implies(ok, Eq(b, app(SBytes, "u_common_HexDec", args[0]))))
 			e.Ctx.Assume(st.PC, Ge(app(SInt, "bytes_len", b), Int(0)))
 			return []Term{b, err}
 		},
@@ -127,6 +134,69 @@ func init() {
 				return []Term{Term{"(to_real (tmod " + ai + " " + bi + "))", SReal}}
 			}
 			return []Term{e.Ctx.Fresh("fmod", SReal)}
+		},
+		"math/big.(*Int).SetString": func(e *Exec, st *State, call *ast.CallExpr, recv Term, args []Term) []Term {
+			// returns (z, true) with the parsed value, or (nil, false)
+			e.S.needStr()
+			e.Ctx.DeclareFun("u_keys_Parse36", []string{SStr}, SInt)
+			e.Ctx.DeclareFun("u_keys_Parse36OK", []string{SStr}, SBool)
+			var ok Term
+			if args[1].S == "36" {
+				ok = app(SBool, "u_keys_Parse36OK", args[0])
+			} else {
+				ok = e.Ctx.Fresh("setstring_ok", SBool)
+			}
+			ok = e.Ctx.Define("ssok", ok)
+			k := e.regKey("G:keys.bigval", ArraySort(SInt, SInt))
+			if args[1].S == "36" {
+				hv := e.heapGet(st, k)
+				e.heapSet(st, k, Ite(ok, Store(hv, recv, app(SInt, "u_keys_Parse36", args[0])), hv))
+			}
+			return []Term{Ite(ok, recv, Int(0)), ok}
+		},
+		"math/big.(*Int).Cmp": func(e *Exec, st *State, call *ast.CallExpr, recv Term, args []Term) []Term {
+			// panics on nil operands
+			e.safe(st, "nil", call, And(Not(Eq(recv, Int(0))), Not(Eq(args[0], Int(0)))))
+			k := e.regKey("G:keys.bigval", ArraySort(SInt, SInt))
+			a, b := Select(e.heapGet(st, k), recv), Select(e.heapGet(st, k), args[0])
+			return []Term{Ite(Lt(a, b), Int(-1), Ite(Eq(a, b), Int(0), Int(1)))}
+		},
+		"crypto/ecdsa.Verify": func(e *Exec, st *State, call *ast.CallExpr, recv Term, args []Term) []Term {
+			// dereferences pub, pub.X, pub.Y, r, s
+			pub, data, r, s := args[0], args[1], args[2], args[3]
+			pt := e.typeOf(call.Args[0]).Underlying().(*types.Pointer).Elem()
+			su := structOf(pt)
+			var xk, yk string
+			for i := 0; i < su.NumFields(); i++ {
+				switch su.Field(i).Name() {
+				case "X":
+					xk = e.fieldKey(pt, su.Field(i))
+				case "Y":
+					yk = e.fieldKey(pt, su.Field(i))
+				}
+			}
+			e.safe(st, "nil", call, Not(Eq(pub, Int(0))))
+			x, y := Select(e.heapGet(st, xk), pub), Select(e.heapGet(st, yk), pub)
+			e.safe(st, "nil", call, And(Not(Eq(x, Int(0))), Not(Eq(y, Int(0))), Not(Eq(r, Int(0))), Not(Eq(s, Int(0)))))
+			k := e.regKey("G:keys.bigval", ArraySort(SInt, SInt))
+			bv := e.heapGet(st, k)
+			e.S.needBytes()
+			e.Ctx.DeclareFun("u_keys_SigOK", []string{SInt, SInt, SBytes, SInt, SInt}, SBool)
+			return []Term{app(SBool, "u_keys_SigOK", Select(bv, x), Select(bv, y), data, Select(bv, r), Select(bv, s))}
+		},
+		"crypto/elliptic.Unmarshal": func(e *Exec, st *State, call *ast.CallExpr, recv Term, args []Term) []Term {
+			// (nil, nil) for malformed or off-curve data
+			e.S.needBytes()
+			e.Ctx.DeclareFun("u_keys_UnmOK", []string{SBytes}, SBool)
+			e.Ctx.DeclareFun("u_keys_UnmX", []string{SBytes}, SInt)
+			e.Ctx.DeclareFun("u_keys_UnmY", []string{SBytes}, SInt)
+			ok := app(SBool, "u_keys_UnmOK", args[1])
+			x := e.allocRef(st, "bigx")
+			y := e.allocRef(st, "bigy")
+			k := e.regKey("G:keys.bigval", ArraySort(SInt, SInt))
+			hv := e.heapGet(st, k)
+			e.heapSet(st, k, Store(Store(hv, x, app(SInt, "u_keys_UnmX", args[1])), y, app(SInt, "u_keys_UnmY", args[1])))
+			return []Term{Ite(ok, x, Int(0)), Ite(ok, y, Int(0))}
 		},
 		"sort.Slice": func(e *Exec, st *State, call *ast.CallExpr, recv Term, args []Term) []Term {
 			return sortModel(e, st, call, call.Args[0])
